@@ -782,7 +782,7 @@ def gen_lifecycle_refine(rng, out):
         d["delay_ms"] = 0
     fb = max(frame_bytes(d["w"], d["h"], d["type"]) for d in streams)
     lines += ["cap %d" % (int(fb * rng.choice([2.5, 4.0, 8.0])) + 3), "fill 0", "streams 2", "noinit 1"]
-    CFGS = ["0 0 -1 -1", "0 0 1 1", "1 1 -1 -1", "-1 -1 0 0", "0 1 1 0", "1 0 -1 -1", "-1 -1 -1 -1", "0 0 1 0", "0 0 1 0"]
+    CFGS = ["0 0 -1 -1", "0 0 1 1", "1 1 -1 -1", "-1 -1 0 0", "0 1 1 0", "1 0 -1 -1", "-1 -1 -1 -1", "0 0 1 0", "0 0 1 0", "2 0 -1 -1", "0 2 -1 -1"]
     prog, cur, running = [], None, False
     for step in range(rng.randint(3, 9)):
         r = rng.random()
@@ -833,6 +833,8 @@ def project_lifecycle(trace_path):
             out.append({"e": k, "a": 0 if e["kind"] == "cam" else 1, "b": e["s"]})
         elif k in ("CamStart", "CamStop", "StorStart", "StorStop"):
             out.append({"e": k, "a": e["s"], "b": 0})
+        elif k == "DevOpenFail":
+            out.append({"e": k, "a": 0 if e["kind"] == "cam" else 1, "b": 2})
         elif k == "DevUse" and e.get("call") == "start_refused":
             out.append({"e": "StorStartRefused", "a": e["s"], "b": 0})
     return out
@@ -842,17 +844,22 @@ def lifecycle_models(chk, bdir, thorough):
     """TLC on Lifecycle.tla: safety for every finite/infinite combination, liveness (stop/abort/shutdown return)."""
     jobs = []
     for fin in ("F10", "F11", "F00"):
-        t = "CONSTANTS MaxCalls = %d SameStore = FALSE\nCONSTANT Finite <- %s\nSPECIFICATION Spec\nVIEW View\n" % (9 if thorough else 6, fin)
+        t = "CONSTANTS MaxCalls = %d SameStore = FALSE BadDev = FALSE\nCONSTANT Finite <- %s\nSPECIFICATION Spec\nVIEW View\n" % (9 if thorough else 6, fin)
         t += "INVARIANTS NoBad ReportedStateOK ArmedAfterStop DriverTruth FailedStartWindsDown\nCHECK_DEADLOCK FALSE\n"
         jobs.append(("Lifecycle safety %s" % fin, write_cfg(os.path.join(bdir, "lc_%s.cfg" % fin), t)))
     # both streams on one storage device: the second start is refused, acquire_start fails and winds down (finding F11)
     for fin in (("F10", "F01", "F11", "F00") if thorough else ("F10", "F01")):
-        t = "CONSTANTS MaxCalls = %d SameStore = TRUE\nCONSTANT Finite <- %s\nSPECIFICATION Spec\nVIEW View\n" % (7 if thorough else 5, fin)
+        t = "CONSTANTS MaxCalls = %d SameStore = TRUE BadDev = FALSE\nCONSTANT Finite <- %s\nSPECIFICATION Spec\nVIEW View\n" % (7 if thorough else 5, fin)
         t += "INVARIANTS NoBad ReportedStateOK ArmedAfterStop DriverTruth FailedStartWindsDown\nCHECK_DEADLOCK FALSE\n"
         jobs.append(("Lifecycle safety %s, same storage device offered" % fin, write_cfg(os.path.join(bdir, "lc_same_%s.cfg" % fin), t)))
-    t = "CONSTANTS MaxCalls = %d SameStore = FALSE\nCONSTANT Finite <- F10\nSPECIFICATION FairSpec\nINVARIANT NoBad\nPROPERTY Returns\nCHECK_DEADLOCK FALSE\n" % (5 if thorough else 4)
+    # a configuration may name a camera / storage device that cannot be opened: that stream is not configured
+    for fin in (("F10", "F00", "F11") if thorough else ("F10",)):
+        t = "CONSTANTS MaxCalls = %d SameStore = FALSE BadDev = TRUE\nCONSTANT Finite <- %s\nSPECIFICATION Spec\nVIEW View\n" % (7 if thorough else 5, fin)
+        t += "INVARIANTS NoBad ReportedStateOK ArmedAfterStop DriverTruth FailedStartWindsDown\nCHECK_DEADLOCK FALSE\n"
+        jobs.append(("Lifecycle safety %s, unopenable devices offered" % fin, write_cfg(os.path.join(bdir, "lc_bad_%s.cfg" % fin), t)))
+    t = "CONSTANTS MaxCalls = %d SameStore = FALSE BadDev = FALSE\nCONSTANT Finite <- F10\nSPECIFICATION FairSpec\nINVARIANT NoBad\nPROPERTY Returns\nCHECK_DEADLOCK FALSE\n" % (5 if thorough else 4)
     jobs.append(("Lifecycle liveness F10", write_cfg(os.path.join(bdir, "lc_live.cfg"), t)))
-    t = "CONSTANTS MaxCalls = %d SameStore = TRUE\nCONSTANT Finite <- F01\nSPECIFICATION FairSpec\nINVARIANT NoBad\nPROPERTY Returns\nCHECK_DEADLOCK FALSE\n" % (4 if thorough else 3)
+    t = "CONSTANTS MaxCalls = %d SameStore = TRUE BadDev = FALSE\nCONSTANT Finite <- F01\nSPECIFICATION FairSpec\nINVARIANT NoBad\nPROPERTY Returns\nCHECK_DEADLOCK FALSE\n" % (4 if thorough else 3)
     jobs.append(("Lifecycle liveness F01, same storage device offered", write_cfg(os.path.join(bdir, "lc_live_same.cfg"), t)))
     states = trans = 0
     with cf.ThreadPoolExecutor(max_workers=4) as ex:
@@ -863,6 +870,8 @@ def lifecycle_models(chk, bdir, thorough):
         tlc_or_broken(r, what)
         require_coverage(r, ["CfgCamOpen", "StartCam", "WCamStop", "JoinRet", "ShutSto"] +
                          (["StartStoRefused", "StartErrRet"] if "same storage" in what else []), what)
+        if "unopenable" in what and not any("DevOpenFail" in l for l in open(os.path.join(SPECS, "Lifecycle.tla"))):
+            raise Broken("Lifecycle.tla lost its DevOpenFail branch")
         states += r.distinct
         trans += r.generated
         chk.cov.setdefault("models", []).append({"model": what, "distinct_states": r.distinct, "transitions": r.generated,
@@ -894,7 +903,7 @@ def lifecycle_refine(chk, exe, bdir, rng, n):
             for e in evs:
                 f.write(json.dumps(e) + "\n")
         mc = out + ".cfg"
-        write_cfg(mc, "CONSTANTS MaxCalls = 24 SameStore = TRUE\nCONSTANT Finite <- %s\nSPECIFICATION TSpec\nINVARIANT NotAccepted\nACTION_CONSTRAINT TrackMax\n"
+        write_cfg(mc, "CONSTANTS MaxCalls = 24 SameStore = TRUE BadDev = TRUE\nCONSTANT Finite <- %s\nSPECIFICATION TSpec\nINVARIANT NotAccepted\nACTION_CONSTRAINT TrackMax\n"
                       "POSTCONDITION Report\nCHECK_DEADLOCK FALSE\n" % fin)
         r = tlc("LifecycleTrace", mc, bdir, workers=1, timeout=600, env={"TRACE": tr}, coverage=False, heap="3g", dfs_queue=True)
         if r.violated == "NotAccepted":
@@ -909,6 +918,7 @@ def lifecycle_refine(chk, exe, bdir, rng, n):
     rej = [o for o in outs if not o[0]]
     chk.set("impl_traces_checked_against_Lifecycle_tla", len(outs))
     chk.set("impl_traces_with_a_refused_storage_start", sum(1 for o in outs if any(e["e"] == "StorStartRefused" for e in o[3])))
+    chk.set("impl_traces_with_a_device_that_cannot_be_opened", sum(1 for o in outs if any(e["e"] == "DevOpenFail" for e in o[3])))
     chk.set("impl_traces_accepted_by_Lifecycle_tla", acc)
     for o in rej[:3]:
         chk.drift_note("an execution of the real runtime is not a behaviour of Lifecycle.tla (%s): %s ... events %s" % (
